@@ -138,6 +138,12 @@ def generate_case(rng_world, rng_swarm, rng_sched, profile, tier="quick"):
         if k not in ("append", "insert", "gc", "drop_held") and rng_sched.random() < rep_rate:
             for _ in range(rng_sched.choice([1, 2, 5, 20, 60, 60, 90])):
                 steps.append(dict(st, rep=True))
+        if rng_sched.random() < 0.06:
+            # an assignment made earlier in the history is made again now (other
+            # assignments, under other spellings of the name, may lie in between)
+            earlier = [x for x in steps if x["op"] == "set" and not x.get("rep")]
+            if earlier:
+                steps.append(dict(rng_sched.choice(earlier[-6:]), retry=True))
         if k == "set" and rng_sched.random() < 0.15:
             # do, then undo: the field just assigned is deleted again
             undo = {"op": "del", "p": st["p"], "via": rng_sched.choice(["held", "fresh", "view"]),
